@@ -69,6 +69,10 @@ func NewLedger(key *storetypes.KVStoreKey) *Ledger {
 
 var ErrInjected = errors.New("ledger: injected dependency failure")
 
+// PanicFaultBase: a fault ordinal o >= PanicFaultBase makes call o-PanicFaultBase of the transaction fail
+// by panicking (the way a dependency runs out of gas) instead of by returning an error.
+const PanicFaultBase = 1000
+
 const (
 	kDenom     = "cfg/denom"
 	kMinter    = "cfg/minter"
@@ -189,6 +193,10 @@ func (l *Ledger) begin(ctx sdk.Context, c Call) (idx int, inject bool) {
 	c.Ord = l.ords[tag]
 	l.ords[tag]++
 	l.log = append(l.log, c)
+	if l.faults[tag][c.Ord+PanicFaultBase] {
+		l.log[len(l.log)-1].Err = "injected panic (out of gas)"
+		panic(storetypes.ErrorOutOfGas{Descriptor: "injected dependency failure"})
+	}
 	return len(l.log) - 1, l.faults[tag][c.Ord]
 }
 
